@@ -5,8 +5,10 @@ import (
 	"fmt"
 	"os"
 	"strings"
+	"time"
 
 	"github.com/XiXi-2024/xixi-kv/verifrt/sched"
+	"github.com/XiXi-2024/xixi-kv/verifrt/vtime"
 )
 
 // C09 — the public API is free of data races, panics and deadlocks under concurrent use.
@@ -104,6 +106,72 @@ func raceSig(rep string) string {
 	return strings.Join(fr, "~")
 }
 
+// ---- the engine's own background goroutine (Options.EnableBackgroundMerge) ---------------------------------------
+// The timer-driven goroutine is created by Open with a plain go statement and waits in a select on a ticker: the
+// controlled scheduler does not own it. This level is the separate FREE-RUNNING pass under the race detector: the
+// ticker period is shortened to 200 microseconds (seam in the time shim), a client issues a fixed script of calls
+// while the goroutine merges, and every conflicting unsynchronised access pair that occurs is reported (the detector
+// needs no particular interleaving for that, only that both accesses happen without a happens-before edge). It is not
+// an exhaustive exploration and is not counted as one (evidence: free_running_executions).
+func c09BackgroundMergeTask(cfg Cfg, rounds int) func(res *TaskResult) {
+	return func(res *TaskResult) {
+		beginExecution()
+		sched.SetMode(sched.ModeOff)
+		vtime.TickerPeriod = 200 * time.Microsecond
+		defer func() { vtime.TickerPeriod = 0; sched.SetMode(sched.ModeSeq) }()
+		w := NewWorld(cfg, keysAB)
+		w.BackgroundMerge = true
+		defer w.Destroy()
+		res.Execs++
+		res.count("free_running_executions", 1)
+		fail := func(clause, sig, detail string) {
+			res.Violations = append(res.Violations, Violation{Prop: "C09", Clause: clause, Sig: sig,
+				Detail: fmt.Sprintf("cfg=%s with EnableBackgroundMerge, client script of %d rounds (put, get, delete, batch, ListKeys, Stat, Sync) while the background goroutine merges\n%s", cfg, rounds, detail),
+				Replay: mustJSON(map[string]any{"engine": "free-running", "property": "C09", "cfg": cfg, "rounds": rounds})})
+		}
+		if err := w.Open(); err != nil {
+			res.Err = "background merge: open: " + panicDetail(err)
+			return
+		}
+		script := []Op{{K: "put", Key: "a", VC: "S"}, {K: "put", Key: "b", VC: "L"}, {K: "del", Key: "a"}, {K: "put", Key: "a", VC: "L"},
+			{K: "batch", Sub: []Op{{K: "put", Key: "b", VC: "S"}, {K: "del", Key: "a"}}}, {K: "sync"}, {K: "put", Key: "a", VC: "S"}}
+		for i := 0; i < rounds && !w.Dead; i++ {
+			progressTick.Add(1)
+			for _, op := range script {
+				ar := w.Apply(op)
+				res.Transitions++
+				if ar.Err != nil || w.Dead {
+					fail("background-merge", "background-merge:"+errClass(ar.Err), fmt.Sprintf("round %d %s: %s %s", i, op, errClass(ar.Err), panicDetail(ar.Err)))
+					return
+				}
+			}
+			if c, d := w.CheckReads(); c != "" {
+				fail("background-merge", "background-merge:"+c, fmt.Sprintf("round %d: %s", i, d))
+				return
+			}
+			time.Sleep(300 * time.Microsecond) // at least one tick per round
+		}
+		if ar := w.Apply(Op{K: "restart"}); ar.Err != nil || ar.Clause != "" {
+			fail("background-merge", "background-merge:restart", "restart after the script: "+ar.Detail)
+			return
+		}
+		if c, d := w.CheckReads(); c != "" {
+			fail("background-merge", "background-merge:after-restart:"+c, d)
+			return
+		}
+		w.Close()
+		now := raceCount()
+		if n := now - raceSeen; n > 0 {
+			rep := raceReport(raceSeen)
+			raceSeen = now
+			fail("data-race", "data-race:"+raceSig(rep), "the race detector reported:\n"+truncate(rep, 2500))
+			return
+		}
+		res.Nontrivial++
+		res.States = append(res.States, hash64("background-merge", cfg.String()))
+	}
+}
+
 func c09Tasks(tier string) []Task {
 	pbPairs, pbTriples := 2, 1
 	if tier == "thorough" {
@@ -142,6 +210,19 @@ func c09Tasks(tier string) []Task {
 				add(fmt.Sprintf("triples-pb%d", pbTriples), ts, pbTriples)
 			}
 		}
+	}
+	rounds := 40
+	if tier == "thorough" {
+		rounds = 400
+	}
+	bm := append([]Cfg{}, cfgs...)
+	for _, fs := range []int64{64, 1 << 20} {
+		c := defaultCfg
+		c.IO, c.FileSize = 1, fs // memory-mapped: Close unmaps the files a running merge reads
+		bm = append(bm, c)
+	}
+	for _, cfg := range bm {
+		tasks = append(tasks, Task{Level: "background-merge-free-running", Name: "background merge " + cfg.String(), Fn: c09BackgroundMergeTask(cfg, rounds)})
 	}
 	return tasks
 }
